@@ -7,7 +7,7 @@ EXTENDS Integers, Sequences, FiniteSets
 Sd(cc, code, kind) ==
     [cc |-> cc, code |-> code, kind |-> kind, good |-> "GOOD", lab |-> "LAB", taxto |-> "GOV",
      issuer |-> "GOV", margin |-> FALSE, tre |-> 0, trector |-> FALSE, mkts |-> << >>,
-     aw |-> << >>, gift |-> FALSE, extra |-> << >>]
+     aw |-> << >>, gift |-> FALSE, extra |-> << >>, late |-> << >>]
 
 Bp(name, countries, sectors, free) ==
     [name |-> name, countries |-> countries, external |-> "none", sectors |-> sectors, free |-> free,
@@ -176,6 +176,36 @@ SIMBOND == [Bp("SIMBOND", C1,
               Sd("C", "DEP", "DepositMarket"), Sd("C", "BOND", "DepositMarket") >>, {2, 8, 9})
         EXCEPT !.freeq = {9}, !.exo = << Exo(1, "DEM_GOOD"), Exo(8, "r"), Exo(9, "r") >>]
 
-AllBlueprints == {TWOBUS, TWOGIFTS, SIMBOND, IMPORTRES, NOEXT3, SIMX, SIMR, SIMEXR, JOIN2, JOIN2X, GOLD2, GOLDNOEXT, SIM, SIMEX, SIMCAP, SIMMARGIN, SIMMON, SIMDEP, PC, MULTI, FED, GIFT, GIFT2, IMPORT, NOEXT1, NOEXT2, NOSUP, TWOSUP}
+\* ---- model REG2 of the book: a central region (treasury, central bank, money, deposits, taxes) and two regions whose ----
+\* ---- multi-output businesses also supply the other region's goods market (declared after construction: AddMarket) ----
+REG2 == [Bp("REG2", C3,
+           << [Sd("G", "TRE", "Treasury") EXCEPT !.extra = << "DEM_N_GOOD", "DEM_S_GOOD" >>],
+              [Sd("G", "CB", "CentralBank") EXCEPT !.tre = 1, !.trector = TRUE],
+              [Sd("G", "MON", "MoneyMarket") EXCEPT !.issuer = "CB"],
+              [Sd("G", "DEP", "DepositMarket") EXCEPT !.issuer = "TRE"],
+              [Sd("G", "TF", "TaxFlow") EXCEPT !.taxto = "TRE"],
+              [Sd("N", "HH", "Household") EXCEPT !.aw = << "DEP" >>], Sd("N", "GOOD", "Market"),
+              [Sd("N", "BUS", "FixedMarginBusinessMultiOutput") EXCEPT !.mkts = << 7 >>, !.late = << 11 >>], Sd("N", "LAB", "Market"),
+              [Sd("S", "HH", "Household") EXCEPT !.aw = << "DEP" >>], Sd("S", "GOOD", "Market"),
+              [Sd("S", "BUS", "FixedMarginBusinessMultiOutput") EXCEPT !.mkts = << 11 >>, !.late = << 7 >>], Sd("S", "LAB", "Market") >>,
+           {5, 9})
+        EXCEPT !.freeq = {9}, !.exo = << Exo(1, "DEM_N_GOOD"), Exo(1, "DEM_S_GOOD"), Exo(4, "r") >>,
+               !.suppliers = << [mkt |-> 7, sup |-> 12, rule |-> TRUE], [mkt |-> 7, sup |-> 8, rule |-> FALSE],
+                                [mkt |-> 11, sup |-> 8, rule |-> TRUE], [mkt |-> 11, sup |-> 12, rule |-> FALSE] >>]
+
+\* ---- treasury + gold-standard central bank in A (money, deposits), a simple economy in B, gifts both ways -----------
+GOLDCB == [Bp("GOLDCB", C2,
+           << Sd("A", "TRE", "Treasury"), [Sd("A", "CB", "GoldStandardCentralBank") EXCEPT !.tre = 1, !.trector = TRUE],
+              [Sd("A", "HH", "Household") EXCEPT !.aw = << "DEP" >>, !.gift = TRUE], Sd("A", "BUS", "FixedMarginBusiness"),
+              [Sd("A", "TF", "TaxFlow") EXCEPT !.taxto = "TRE"], Sd("A", "LAB", "Market"), Sd("A", "GOOD", "Market"),
+              [Sd("A", "MON", "MoneyMarket") EXCEPT !.issuer = "CB"], [Sd("A", "DEP", "DepositMarket") EXCEPT !.issuer = "TRE"],
+              Sd("B", "GOV", "ConsolidatedGovernment"), [Sd("B", "HH", "Household") EXCEPT !.gift = TRUE],
+              Sd("B", "BUS", "FixedMarginBusiness"), Sd("B", "TF", "TaxFlow"), Sd("B", "LAB", "Market"), Sd("B", "GOOD", "Market") >>,
+           {4, 9})
+        EXCEPT !.freeq = {9}, !.external = "first", !.gold = TRUE,
+               !.flows = << Flow(3, 11, "GIFT", FALSE, TRUE), Flow(11, 3, "GIFT", FALSE, TRUE) >>,
+               !.exo = << Exo(1, "DEM_GOOD"), Exo(10, "DEM_GOOD"), Exo(9, "r") >>]
+
+AllBlueprints == {REG2, GOLDCB, TWOBUS, TWOGIFTS, SIMBOND, IMPORTRES, NOEXT3, SIMX, SIMR, SIMEXR, JOIN2, JOIN2X, GOLD2, GOLDNOEXT, SIM, SIMEX, SIMCAP, SIMMARGIN, SIMMON, SIMDEP, PC, MULTI, FED, GIFT, GIFT2, IMPORT, NOEXT1, NOEXT2, NOSUP, TWOSUP}
 QuickBlueprints == { [b EXCEPT !.free = b.freeq] : b \in AllBlueprints }
 =============================================================================
